@@ -933,8 +933,18 @@ static void judge_plain(const Script& S, const Snap& A, const Snap& R, const Sna
     // the nodes accepted before the refused call must still serialize to what the assembler produced before it
     if (B.finalize_err == 0) {
       for (size_t i = 0; i < A.sec_bytes.size() && i < B.sec_bytes.size(); i++) {
-        if (A.sec_bytes[i] != B.sec_bytes[i]) {
-          res.viol.push_back({ "bytes:before-call-time-error" + post, fmt("section %zu differs (%zu vs %zu bytes) for the calls accepted before the refused call %s", i, A.sec_bytes[i].size(), B.sec_bytes[i].size(), B.err_at.c_str()) });
+        // with several sections the builder's section grouping may legitimately turn an embed_label_delta relocation into a constant:
+        // only the sizes are comparable then
+        bool differs = S.secs.empty() ? A.sec_bytes[i] != B.sec_bytes[i] : A.sec_bytes[i].size() != B.sec_bytes[i].size();
+        if (differs) {
+          const std::string& a = A.sec_bytes[i]; const std::string& b = B.sec_bytes[i];
+          size_t n = std::min(a.size(), b.size()), p = 0;
+          while (p < n && a[p] == b[p]) p++;
+          size_t from = p >= 8 ? p - 8 : 0;
+          std::string tok;
+          std::string cul = culprit_at(A, uint32_t(i), p, &tok);
+          res.viol.push_back({ "bytes:before-call-time-error" + post, fmt("section %zu differs (%zu vs %zu bytes) for the calls accepted before the refused call %s; first difference at %zu in call %s (%s): assembler ..", i, a.size(), b.size(), B.err_at.c_str(), p, tok.c_str(), cul.c_str())
+            + hexstr(a.data() + from, std::min<size_t>(a.size() - from, 24)) + " builder .." + hexstr(b.data() + from, std::min<size_t>(b.size() - from, 24)) });
           return;
         }
       }
